@@ -291,7 +291,7 @@ class Pool:
 
 def child_main(arg):
     req = json.loads(arg)
-    sys.path.insert(0, '/repo')
+    sys.path.insert(0, os.environ.get('VERIF_REPO', '/repo'))
     os.environ.setdefault('MPLBACKEND', 'Agg')
     import warnings
     warnings.simplefilter('ignore')
